@@ -1,19 +1,19 @@
 import HranoModel.Lemmas.Fixed
 import HranoModel.Lemmas.Walk
+import HranoModel.Lemmas.PrintDoc
+import HranoModel.Props.C04
 import HranoModel.Model.Options
 /-!
 C14 — `print` emits a normal form that reads back to the same log.
 
-Property theorems only.  Proved here: the numeric side (a printed quantity prints again as itself) and the
-structure of what `print` writes.  NOT yet proved (kept at full strength as a comment, checked only by
-the correspondence and the implementation oracle of the C14 check):
-
-    theorem print_reparse (l : Layout) (days : List LogDay) (h : LogWF days) :
-      walk l none none none (Parser.events cc (perDay (renderPrint {dateLayout := l}) days))
-        = (days.map round2, none)
-
-It needs the tokenizer lemma of C04 instantiated at the layout `print` uses, `Date.parse l (Date.format l c)
-= some c`, and `parseFloat (fmtFixed 2 q) = .value (printedValue 2 q)`.
+Property theorems only (helper lemmas: `Lemmas/Number.lean` — the number reader on what `%.2f` writes,
+`Lemmas/DateRT.lean` — a date read back by its layout, `Lemmas/PrintDoc.lean` — the printed text as a
+well-formed file of `Spec/Doc.lean`).  The main theorem is `print_reparse`: reading what `print` wrote gives
+the same days, foods and notes, with the amounts as printed; `print_print` is the normal-form statement.
+The well-formedness hypothesis `DayOK` is explicit and decidable in its parts: accepted date, legal and
+distinct food names (which the walk guarantees: it merges repeated foods), amounts in float64's range, notes
+the note reader maps to themselves (`# a: #` is the documented exception, see DESIGN.md observation 14), no
+line longer than the scanner's buffer.
 -/
 namespace Hrano.C14
 open Hrano Hrano.Report Hrano.Num
@@ -81,7 +81,90 @@ theorem printed_quantity_close (q : Q) :
     ∧ 2 * (q.num.natAbs * 100) ≤ 2 * (roundedAt 2 q * q.den) + q.den :=
   roundHalfEven_close _ _ (Rat.den_pos q)
 
-/-! non-vacuity -/
+/-- the number reader accepts what `print` writes for a quantity, with exactly the printed value -/
+theorem printed_quantity_reads_back (q : Q) (hq : roundedAt Facts.printPrecision q < 10 ^ (308 + Facts.printPrecision)) :
+    parseFloat (fmtFixed Facts.printPrecision q) = .value (printedValue Facts.printPrecision q) :=
+  parseFloat_fmtFixed _ q (by decide) (by decide) hq
+
+/-- a date heading written in a layout is read back by the same layout -/
+theorem printed_date_reads_back (l : Layout) (c : Civil) (hl : Date.roundTrips l = true) (hc : Date.CivilOK c) :
+    Date.parse l (Date.format l c) = some c :=
+  Date.parse_format l c hl hc
+
+open PrintDoc in
+/-- **Main theorem.**  Reading what `print` wrote (same date layout, no period) gives back the same days in the
+    same order, each with the same foods in the same order and the same notes; the amounts are the printed ones
+    (each within half a cent of the original, `printed_quantity_close`). -/
+theorem print_reparse (cfg : RCfg) (days : List LogDay) (hl : Date.roundTrips cfg.dateLayout = true)
+    (h : ∀ d ∈ days, DayOK cfg.dateLayout d) :
+    App.walk cfg.dateLayout none none none (Parser.events PConst.commentChar (App.perDay (renderPrint cfg) days))
+      = (days.map printedDay, none) := by
+  have hlines := printFile_lines_ok cfg.dateLayout days h
+  rw [perDay_lines, Parser.events_of_lines _ _ (fun l hl => (hlines l hl).1) (fun l hl => (hlines l hl).2.1) (fun l hl => (hlines l hl).2.2),
+    C04.parse_render _ (printFile_wf _ days h), printFile_nodes _ days h, List.map_map]
+  exact walk_nodes cfg.dateLayout hl days h
+
+open PrintDoc in
+/-- **normal form**: printing what was read back from a printed log reproduces it byte for byte (amounts that a
+    second rounding would change are excluded by `printed_quantity_stable`'s side condition) -/
+theorem print_print (cfg : RCfg) (days : List LogDay)
+    (hz : ∀ d ∈ days, ∀ e ∈ d.elements, e.value.num < 0 → roundedAt Facts.printPrecision e.value ≠ 0) :
+    App.perDay (renderPrint cfg) (days.map printedDay) = App.perDay (renderPrint cfg) days := by
+  unfold App.perDay
+  rw [List.map_map]
+  congr 1
+  apply List.map_congr_left
+  intro d hd
+  simp only [Function.comp, renderPrint, printedDay, List.map_map]
+  congr 2
+  congr 1
+  apply List.map_congr_left
+  intro e he
+  simp only [Function.comp]
+  rw [fmtFixed_stable _ e.value (hz d hd e he)]
+
+/-! non-vacuity: the hypotheses of `print_reparse` are met by a day with a nested food name, a negative amount, a
+    `name: value` note and a text note, in the default layout -/
+def demoLayout : Layout := [.year4, .lit 47, .month2, .lit 47, .day2]
+def demoDay : LogDay := ⟨⟨2021, 1, 24⟩, [⟨[97, 47, 98], (3 : Q) / 8⟩, ⟨[99], -2⟩], [⟨[110], [118]⟩, ⟨[], [116, 32, 120]⟩]⟩
+
+open PrintDoc Doc in
+example : Date.roundTrips demoLayout = true ∧ DayOK demoLayout demoDay := by
+  refine ⟨by decide, ⟨⟨by decide, by decide, by decide, by decide, by decide⟩, ?_, ?_, ?_, ?_, ?_, ?_, ?_⟩⟩
+  · exact ⟨⟨50, [48, 50, 49, 47, 48, 49, 47, 50, 52], by decide +kernel, by decide, by decide⟩,
+      ⟨[50, 48, 50, 49, 47, 48, 49, 47, 50], 52, by decide +kernel, by decide, by decide⟩⟩
+  · have : Date.format demoLayout demoDay.date = [50, 48, 50, 49, 47, 48, 49, 47, 50, 52] := by decide +kernel
+    rw [this]; decide
+  · intro e he
+    simp only [demoDay, List.mem_cons, List.not_mem_nil, or_false] at he
+    rcases he with rfl | rfl
+    · exact ⟨⟨⟨97, [47, 98], rfl, by decide, by decide⟩, ⟨[97, 47], 98, rfl, by decide, by decide⟩⟩, by decide⟩
+    · exact ⟨⟨⟨99, [], rfl, by decide, by decide⟩, ⟨[], 99, rfl, by decide, by decide⟩⟩, by decide⟩
+  · intro e he
+    simp only [demoDay, List.mem_cons, List.not_mem_nil, or_false] at he
+    rcases he with rfl | rfl
+    · have : roundedAt P ((3 : Q) / 8) = 38 := by decide +kernel
+      rw [this]; exact Nat.lt_of_lt_of_le (by decide : 38 < 10 ^ 2) (Nat.pow_le_pow_right (by decide) (by decide))
+    · have : roundedAt P (-2 : Q) = 200 := by decide +kernel
+      rw [this]; exact Nat.lt_of_lt_of_le (by decide : 200 < 10 ^ 3) (Nat.pow_le_pow_right (by decide) (by decide))
+  · decide
+  · intro m hm
+    simp only [demoDay, List.mem_cons, List.not_mem_nil, or_false] at hm
+    rcases hm with rfl | rfl
+    · exact ⟨by decide +kernel, by decide, by decide⟩
+    · exact ⟨by decide +kernel, by decide, by decide⟩
+  · have : Record.lines PrintDoc.cc (dayRecord demoLayout demoDay)
+        = [[50, 48, 50, 49, 47, 48, 49, 47, 50, 52, 58], [32, 32, 35, 32, 110, 58, 32, 118], [32, 32, 35, 32, 116, 32, 120],
+           [32, 32, 45, 32, 97, 47, 98, 58, 32, 48, 46, 51, 56], [32, 32, 45, 32, 99, 58, 32, 45, 50, 46, 48, 48], []] := by
+      decide +kernel
+    rw [this]; decide
+
+open PrintDoc in
+example : App.walk [.year4, .lit 47, .month2, .lit 47, .day2] none none none
+    (Parser.events 35 (App.perDay (renderPrint { dateLayout := [.year4, .lit 47, .month2, .lit 47, .day2] })
+      [⟨⟨2021, 1, 24⟩, [⟨[97, 47, 98], (3 : Q) / 8⟩, ⟨[99], -2⟩], [⟨[110], [118]⟩, ⟨[], [116, 32, 120]⟩]⟩]))
+    = ([⟨⟨2021, 1, 24⟩, [⟨[97, 47, 98], (19 : Q) / 50⟩, ⟨[99], -2⟩], [⟨[110], [118]⟩, ⟨[], [116, 32, 120]⟩]⟩], none) := by
+  decide +kernel
 example : fmtFixed 2 ((3 : Q) / 8) = [48, 46, 51, 56] := by decide +kernel        -- 0.375 → 0.38
 example : fmtFixed 2 (printedValue 2 ((3 : Q) / 8)) = [48, 46, 51, 56] := by decide +kernel
 
